@@ -37,6 +37,9 @@ pub fn check(tier: Tier) -> Check {
     // persistent back-pressure on the write half (WriteBlock / WriteUnblock events)
     parts.push(Part::new("C06/interleave", json!({"depth": tier.pick(4, 5), "r": 2, "wb": true}), 1, tier.pick(30, 400)));
     parts.push(Part::new("C06/interleave", json!({"depth": tier.pick(3, 4), "wb": true}), 2, tier.pick(30, 400)));
+    // two publishes in flight under one identifier value (the counter rewound by the hook, as after a
+    // lap): until an acknowledgement arrives both stay pending, both packets are written
+    parts.push(Part::new("C06/same-id", json!({}), 0, 60));
     // a sliding window of publishes (and other requests) over 60 rounds: each handshake reports its own outcome
     parts.push(Part::new("C06/sliding", json!({}), 0, 120));
     // publishes issued one after the other on ONE handle object (and on clones of it), some refused
@@ -70,6 +73,9 @@ fn pub_specs() -> Vec<OpSpec> {
 }
 
 pub fn scenario(name: &str, params: &Value) -> Scenario {
+    if name == "C06/same-id" {
+        return super::c10::same_id("C06", name.to_string(), params.clone());
+    }
     if name == "C06/sliding" {
         return super::c05::sliding("C06", name.to_string(), params.clone());
     }
